@@ -84,7 +84,7 @@ def gen_dhw_building(rng):
     elif mix == "biomass_small_electric":
         # a biomass boiler and a small electric backup heater (a fraction of a percent of the demand, well above 0.01 kWh):
         # electricity is not a nearby carrier, so the output energy declared by the biomass system is what counts
-        g = v()
+        g = [max(x, Fraction(8)) for x in v()]       # at least 8 kWh per step: the backup stays above the code's 0.01 kWh guard
         e = [x / rng.choice([128, 256, 512]) for x in g]
         b.add("CONSUMO", id=1, service="ACS", carrier=rng.choice(["BIOMASA", "BIOMASADENSIFICADA"]), values=g)
         b.add("CONSUMO", id=2, service="ACS", carrier="ELECTRICIDAD", values=e)
